@@ -27,10 +27,10 @@ HEADER = "From Coq Require Import List. Import ListNotations.\nFrom Yaqs Require
 
 
 def regenerate(ctx):
-    """coq/Gen/SmallGen.v from the current source (incl. the selection test of create_local_noise_model; fail closed)"""
+    """coq/Gen/LocalGen.v from the current source of create_local_noise_model (fail closed)"""
     from gen import translate_small
 
-    translate_small.regenerate()
+    translate_small.regenerate(("local",))
 
 
 def gen_gates(rng, n, m):
